@@ -45,6 +45,12 @@ CHECKS = {
             "data classes, nested combinators) built by operators, constructors and typing.Union, with inputs aimed at each argument; the outcome "
             "is compared with the semantics stated in the property, every xor is re-run under all permutations, and the algebra laws are checked on every tree.",
             "Trusted: standalone verdicts via utype.type_transform (arguments are judged by C01/C02), vf/tspec.py:conforms, vf/oracle.py:equal.", "3/C09"),
+    "C10": ("differential property-based testing (Hypothesis): fail-fast vs collect_errors run of the same declaration and input; reported item set compared with the independently computed set of individually failing items; max_errors cap",
+            "hypothesis",
+            "Exploration: generated data classes and functions over 14 field types (scalars, constrained, containers, unions, xor, nested data classes) with any "
+            "subset of the top-level items invalid (bad values, bad nested elements, all-branches-failing unions, missing required fields, exceeding keys) and "
+            "max_errors in {None,1,2,3}; verdicts, values, the reported item set, duplicates and the cap are compared.",
+            "Trusted: per-item verdict via utype.type_transform on the field type alone (conversion judged by C01/C02); .item of the collected errors.", "3/C10"),
     "C11": ("metamorphic property-based testing (Hypothesis): exclude == strict parse of the input minus the independently established offenders; preserve == that plus the offenders reinserted unchanged; over containers, data-class fields, typed addition, *args/**kwargs and all policy triples",
             "hypothesis",
             "Exploration: generated List/Set/FrozenSet/Tuple[T,...]/Dict[K,V] types (one nesting level), data classes with per-field on_error, "
